@@ -96,6 +96,17 @@ pub struct Case {
     /// the profile type is a hand-written `ConfigProfile` whose names may contain dots
     #[serde(default)]
     pub hand_profile: bool,
+    /// a second directory of the same name between the working directory and the usual one (relative modes only):
+    /// 0 none; 1 the nearer one holds only the profile file, the farther one only base.yml; 2 the other way round;
+    /// 3 both hold both files, the farther one with other values
+    #[serde(default)]
+    pub split_layout: u8,
+    /// a variable whose name differs from PX_PROFILE only by letter case, naming another valid profile:
+    /// (spelling, which other profile); the environment is passed in the order given by `env_rot`
+    #[serde(default)]
+    pub profile_sibling: Option<(u8, u8)>,
+    #[serde(default)]
+    pub env_rot: u8,
 }
 
 fn key_paths(c: &Case) -> Vec<(Vec<String>, u8)> {
@@ -223,6 +234,12 @@ pub fn oracle(c: &Case) -> CaseResult {
     let deep = root.join("sub").join("deeper");
     std::fs::create_dir_all(&cfg).map_err(|e| Fail::new("harness:io", e.to_string()))?;
     std::fs::create_dir_all(&deep).map_err(|e| Fail::new("harness:io", e.to_string()))?;
+    // the documented upward search stops at the first directory of that name: `near` (if any) is found before `cfg`
+    let split = if matches!(c.dir, DirMode::RelativeFromSubdir | DirMode::DefaultName) { c.split_layout % 4 } else { 0 };
+    let near = root.join("sub").join(dir_name);
+    if split != 0 {
+        std::fs::create_dir_all(&near).map_err(|e| Fail::new("harness:io", e.to_string()))?;
+    }
 
     // ---- write the three sources
     let mut base = BTreeMap::new();
@@ -258,12 +275,64 @@ pub fn oracle(c: &Case) -> CaseResult {
     }
     // when no key lives in the base file, the file itself is left out for every other such case
     // (an absent file contributes nothing, exactly like an empty one)
-    let omit_base = base.is_empty() && c.keys.len() % 2 == 0;
-    if !omit_base {
-        std::fs::write(cfg.join("base.yml"), yaml(&base)).map_err(|e| Fail::new("harness:io", e.to_string()))?;
-    }
-    if c.profile_file_exists {
-        std::fs::write(cfg.join(format!("{pname}.yml")), yaml(&prof)).map_err(|e| Fail::new("harness:io", e.to_string()))?;
+    let omit_base = base.is_empty() && c.keys.len() % 2 == 0 && split == 0;
+    let wr = |dir: &PathBuf, name: String, tree: &BTreeMap<Vec<String>, String>| {
+        std::fs::write(dir.join(name), yaml(tree)).map_err(|e| Fail::new("harness:io", e.to_string()))
+    };
+    let far_tree = |t: &BTreeMap<Vec<String>, String>| -> BTreeMap<Vec<String>, String> {
+        t.iter().map(|(k, v)| (k.clone(), v.replace("v_", "v_far_"))).collect()
+    };
+    // `either`: keys on which "search every file upwards on its own" (the code) and "search the directory upwards, then
+    // read its files" (the rustdoc of `configuration_dir`) disagree; nothing is asserted about them
+    let mut either: Vec<Vec<String>> = vec![];
+    match split {
+        0 => {
+            if !omit_base {
+                wr(&cfg, "base.yml".into(), &base)?;
+            }
+            if c.profile_file_exists {
+                wr(&cfg, format!("{pname}.yml"), &prof)?;
+            }
+        }
+        1 => {
+            // nearer: profile file only; farther: base.yml only. The profile file of the nearest directory counts under
+            // both readings; base.yml is read from the farther directory (code) or not at all (rustdoc)
+            wr(&near, format!("{pname}.yml"), &prof)?;
+            wr(&cfg, "base.yml".into(), &base)?;
+            for (path, src) in &keys {
+                if src & 1 != 0 && src & 6 == 0 {
+                    either.push(path.clone());
+                }
+            }
+            // the profile file always exists in this layout
+            for (i, (path, src)) in keys.iter().enumerate() {
+                if src & 2 != 0 && src & 4 == 0 {
+                    expected.insert(path.clone(), format!("v_prof_{i}"));
+                }
+            }
+        }
+        2 => {
+            // nearer: base.yml only; farther: profile file only
+            wr(&near, "base.yml".into(), &base)?;
+            wr(&cfg, format!("{pname}.yml"), &prof)?;
+            for (path, src) in &keys {
+                if src & 2 != 0 && src & 4 == 0 {
+                    either.push(path.clone());
+                }
+            }
+        }
+        _ => {
+            // both directories hold both files; the nearest one wins under both readings
+            wr(&near, "base.yml".into(), &base)?;
+            wr(&near, format!("{pname}.yml"), &prof)?;
+            wr(&cfg, "base.yml".into(), &far_tree(&base))?;
+            wr(&cfg, format!("{pname}.yml"), &far_tree(&prof))?;
+            for (i, (path, src)) in keys.iter().enumerate() {
+                if src & 2 != 0 && src & 4 == 0 {
+                    expected.insert(path.clone(), format!("v_prof_{i}"));
+                }
+            }
+        }
     }
     // decoy: another profile's file must never be read
     let decoy = profile_name(c, c.profile as usize + 1);
@@ -295,17 +364,41 @@ pub fn oracle(c: &Case) -> CaseResult {
     };
     let args = serde_json::to_string(&ChildArgs { dir: dir_arg, explicit_profile: explicit, hand: c.hand_profile }).unwrap();
     let exe = std::env::current_exe().map_err(|e| Fail::new("harness:io", e.to_string()))?;
-    let mut cmd = std::process::Command::new(exe);
-    cmd.arg("C18-child").arg(&args).current_dir(&cwd).env_clear();
-    for (k, v) in &env {
-        cmd.env(k, v);
-    }
+    // The child gets exactly these variables, in exactly this order (`std::process::Command` would sort them by name):
+    // `/usr/bin/env -i K=V ... <exe> <args>` builds the environment block in the order of its arguments.
+    let mut vars: Vec<(String, String)> = env.clone();
     if let Some(p) = &px_profile {
-        cmd.env("PX_PROFILE", p);
+        vars.push(("PX_PROFILE".into(), p.clone()));
+    }
+    let sibling = match (&c.profile_sibling, &px_profile) {
+        (Some((sp, other)), Some(_)) if selected_ok => {
+            let name = ["px_profile", "Px_Profile", "PX_PROFILe", "pX_PROFILE", "PX_profile"][*sp as usize % 5];
+            Some((name.to_string(), profile_name(c, c.profile as usize + 1 + *other as usize % 5).to_string()))
+        }
+        _ => None,
+    };
+    if let Some(sv) = &sibling {
+        vars.push(sv.clone());
     }
     if c.noise_env {
-        cmd.env("PXX_ALPHA", "noise").env("ALPHA", "noise").env("XPX_ALPHA", "noise").env("HOME", "/nonexistent");
+        for k in ["PXX_ALPHA", "ALPHA", "XPX_ALPHA"] {
+            vars.push((k.into(), "noise".into()));
+        }
+        vars.push(("HOME".into(), "/nonexistent".into()));
     }
+    if !vars.is_empty() {
+        let r = c.env_rot as usize % vars.len();
+        vars.rotate_left(r);
+        if c.env_rot >= 128 {
+            vars.reverse();
+        }
+    }
+    let mut cmd = std::process::Command::new("/usr/bin/env");
+    cmd.arg("-i");
+    for (k, v) in &vars {
+        cmd.arg(format!("{k}={v}"));
+    }
+    cmd.arg(exe).arg("C18-child").arg(&args).current_dir(&cwd).env_clear();
     let out = cmd.output().map_err(|e| Fail::new("harness:spawn", e.to_string()))?;
     let _ = std::fs::remove_dir_all(&root);
     if !out.status.success() {
@@ -321,7 +414,7 @@ pub fn oracle(c: &Case) -> CaseResult {
 
     let describe = || {
         format!(
-            "profile={pname} explicit={} PX_PROFILE={px_profile:?} dir={:?} profile_file={} base={base:?} profile_file_content={prof:?} env={env:?}",
+            "profile={pname} explicit={} PX_PROFILE={px_profile:?} dir={:?} profile_file={} split_layout={split} base={base:?} profile_file_content={prof:?} environment (in order)={vars:?}",
             c.explicit_profile, c.dir, c.profile_file_exists
         )
     };
@@ -374,11 +467,28 @@ pub fn oracle(c: &Case) -> CaseResult {
         }
     }
     flatten(&mut vec![], &loaded, &mut flat);
+    if sibling.is_some() {
+        // the sibling is not `PX_PROFILE`; whether the loader's case-insensitive prefix turns it into a key named
+        // `profile` is not what is judged here (only which profile file was read is)
+        flat.retain(|k, _| k[0] != "profile");
+        info.lab("PX_PROFILE-sibling-with-other-letter-case");
+        info.set_nontrivial(true);
+    }
+    for k in &either {
+        flat.remove(k);
+        expected.remove(k);
+    }
+    if split != 0 {
+        info.lab(format!("split-layout:{split}"));
+        info.set_nontrivial(true);
+    }
     if flat != expected {
         let sig = if flat.keys().any(|k| k[0] == "profile") {
             "px-profile-treated-as-key"
         } else if flat.values().any(|v| v == "v_decoy") {
             "wrong-profile-file-read"
+        } else if flat.values().any(|v| v.starts_with("v_far_")) {
+            "farther-directory-preferred"
         } else {
             "precedence"
         };
@@ -457,8 +567,9 @@ pub fn case_strategy() -> impl Strategy<Value = Case> {
         prop::bool::weighted(0.9),
         any::<bool>(),
         prop::bool::weighted(0.3),
+        (prop_oneof![3 => Just(0u8), 1 => 1u8..4], prop::option::weighted(0.25, (0u8..5, 0u8..5)), any::<u8>()),
     )
-        .prop_map(|(keys, profile, explicit_profile, px_profile, dir, profile_file_exists, noise_env, hand_profile)| Case {
+        .prop_map(|(keys, profile, explicit_profile, px_profile, dir, profile_file_exists, noise_env, hand_profile, (split_layout, profile_sibling, env_rot))| Case {
             keys,
             profile,
             explicit_profile,
@@ -467,6 +578,9 @@ pub fn case_strategy() -> impl Strategy<Value = Case> {
             profile_file_exists,
             noise_env,
             hand_profile,
+            split_layout,
+            profile_sibling,
+            env_rot,
         })
 }
 
